@@ -15,7 +15,6 @@ import contextlib
 import copy
 import inspect
 import io
-import itertools
 import math
 import random
 
@@ -47,14 +46,22 @@ ASSUMPTIONS = [
     "integer",
     "extract_model_operations is not driven on multi-input models (bn_folding_utils.unfold_model supports one "
     "input); Dense layers act on rank-1 samples (the documented restriction of both counters)",
+    "generator domain: a layer built with use_bias=False gets no bias quantizer; depth_multiplier 2 is never "
+    "combined with an auto_po2 depthwise quantizer (documented assertion); models with auto_po2 weights follow the "
+    "documented flow model_save_quantized_weights -> QTools(model_weights_already_quantized=True); every 40th "
+    "case is the directed 'narrow_merge' family (ternary x binary operands of a merge)",
+    "a model output that is also consumed by another layer is not an 'output layer' in qtools' graph (only layers "
+    "without consumers are): the output-placement rule is not enforced for it (observation)",
+    "bit widths come from the report (QTools._output_dict); a report that differs from the type object "
+    "energy_estimate reads is a violation of its own kind, after which the object's value is used",
 ]
 TIMEOUT = {"quick": 600, "thorough": 2400}
 WORKERS = {"quick": 16, "thorough": 16}
 EXHAUSTIVE = {"quick": False, "thorough": False}
 
-N_MODELS = {"quick": 640, "thorough": 6400}
+N_MODELS = {"quick": 400, "thorough": 6400}
 N_PLACEMENTS = {"quick": 10, "thorough": 54}
-THOROUGH_SCALE = 10            # models: thorough / quick
+THOROUGH_SCALE = 16            # models: thorough / quick
 THOROUGH_PLACEMENT_SCALE = 5   # placements per model: 54 / 10, rounded down
 PLACEMENTS = ["dram", "sram", "fixed"]
 SETTINGS = [
@@ -80,6 +87,8 @@ def thresholds(tier):
            "energy.sums_checked": 6600, "energy.profiles_checked": 6600, "spy.events": 70000,
            "spy.memory_read_energy": 16000, "spy.memory_write_energy": 9000, "spy.parameter_read_energy": 9000,
            "spy.OP": 34000, "ref.keras_selfcheck": 95, "distinct_nontrivial": 2400}
+  # the table above was measured with 640 quick models; the quick tier now runs 400
+  quick = {k: int(v * 400 / 640) for k, v in quick.items()}
   if tier == "quick":
     return quick
   out = {}
